@@ -376,6 +376,31 @@ impl Prop for C12 {
             };
             let mut kind_s = kind.to_string();
             match kind {
+                "complete" if !always_on && matches!(s.last(), Some(Item::Overlap(_))) && r.chance(350) => {
+                    // the whole sequence, its final O-group held beyond the timeout before it is
+                    // released: either the sequence completed when the last key went down, or the
+                    // timeout ended sequence mode - the release afterwards must not fire anything
+                    kind_s = "complete-held".into();
+                    type_items(&mut r, &mut ops, &mut typed, &s[..s.len() - 1], &mut end_at);
+                    if let Some(Item::Overlap(ks)) = s.last() {
+                        let mut p = ks.clone();
+                        r.shuffle(&mut p);
+                        for (i, k) in p.iter().enumerate() {
+                            end_at = ops.len();
+                            ops.push(Op::Press(code(k)));
+                            typed.push(k.clone());
+                            if i + 1 < p.len() {
+                                ops.push(Op::Gap(small(&mut r)));
+                            }
+                        }
+                        ops.push(Op::Gap((tt + 15) as u32));
+                        r.shuffle(&mut p);
+                        for k in &p {
+                            ops.push(Op::Release(code(k)));
+                            ops.push(Op::Gap(1));
+                        }
+                    }
+                }
                 "complete" => {
                     type_items(&mut r, &mut ops, &mut typed, s, &mut end_at);
                 }
@@ -521,13 +546,16 @@ impl Prop for C12 {
             );
             return o;
         }
+        // An accepted table of the known class 'conflict only between an O-group and plain keys' is
+        // reported as such at the end; before that the history still runs on it and the rules that
+        // do not depend on which sequence matches are judged (nothing fires after the timeout ended
+        // sequence mode, nothing stays down).
+        let mut limited: Option<(String, Vec<String>)> = None;
         if let Some((i, j)) = conflict_typed {
-            o.set_fail(
-                "C12:ambiguous-table-accepted",
+            limited = Some((
                 format!("typing v{i} ({}) is the beginning of typing v{j} ({}) in a permitted ordering of its O-groups (the keys of an O-group are typed like plain keys), but the parser accepted the table", table.seqs[i].iter().map(item_text).collect::<Vec<_>>().join(" "), table.seqs[j].iter().map(item_text).collect::<Vec<_>>().join(" ")),
                 vec!["conflict-only-between-overlap-group-and-plain-keys".into()],
-            );
-            return o;
+            ));
         }
         // Sequences whose typing shares its beginning with another sequence that encodes those keys
         // differently (overlapping vs plain): the matcher follows two hypotheses at most (known
@@ -618,6 +646,12 @@ impl Prop for C12 {
                 o.count("segment.skipped-shape", 1);
                 continue;
             }
+            if limited.is_some() && sg.kind != "complete-held" {
+                continue;
+            }
+            if limited.is_some() {
+                o.count("segment.complete-held-in-ambiguous-table", 1);
+            }
             o.count(&format!("segment.{}", sg.kind), 1);
             o.count(&format!("mode.{}", sg.mode), 1);
             let seg_first_out = if sg.from == 0 { 0 } else { outs_upto[sg.from - 1] };
@@ -642,6 +676,27 @@ impl Prop for C12 {
                 }
             }
             let show = || format!("segment {:?} of v{} ({}) ops[{}..{}]: {} :: outputs {}", sg.kind, sg.seq, table.seqs[sg.seq].iter().map(item_text).collect::<Vec<_>>().join(" "), sg.from, sg.to, ops_short(&case.ops[sg.from..sg.to]), outs_short(seg_outs));
+            if sg.kind == "complete-held" {
+                // time of the last press of the group
+                let t_press: u64 = case.ops[..sg.end_at].iter().map(|op| if let Op::Gap(g) = op { *g as u64 } else { 0 }).sum();
+                let late: Vec<&OutEv> = seg_outs.iter().filter(|e| e.kind == OutKind::Press && marker_idx(&e.key).is_some() && e.t > t_press + 5).collect();
+                // (in a table of the known ambiguous class another sequence may legitimately match on the way)
+                // whatever the table is, a virtual key can only be tapped by a key press (or by the
+                // release that ends an O-group) while sequence mode is active: no cause tag applies
+                if !late.is_empty() {
+                    o.set_fail("C12:fired-by-release-after-timeout", format!("the final group was held beyond the timeout (last press at {t_press}), sequence mode had ended: markers {:?}; {}", markers, show()), vec![]);
+                    return o;
+                }
+                if limited.is_none() && (markers.len() > 1 || markers.iter().any(|m| *m != sg.seq)) {
+                    o.set_fail("C12:sequence-fired-after-timeout", format!("the final group was held beyond the timeout (last press at {t_press}): markers {:?}; {}", markers, show()), ftags.clone());
+                    return o;
+                }
+                if active_after[sg.to - 1] {
+                    o.set_fail("C12:sequence-mode-not-left", format!("sequence mode still active at the end of the segment; {}", show()), ftags.clone());
+                    return o;
+                }
+                continue;
+            }
             if expect_marker {
                 if markers != vec![sg.seq] {
                     o.set_fail("C12:sequence-did-not-fire-exactly-once", format!("expected marker {} exactly once, got markers {:?}; {}", MARKERS_OUT[sg.seq], markers, show()), ftags.clone());
@@ -735,6 +790,10 @@ impl Prop for C12 {
                     }
                 }
             }
+        }
+        if let Some((detail, tags)) = limited {
+            o.set_fail("C12:ambiguous-table-accepted", detail, tags);
+            return o;
         }
         if want_sample {
             o.sample = Some(sample_json(case, &outs, json!({"markers": total_markers, "segments": segs.len()})));
